@@ -158,9 +158,13 @@ ChooseNode ==
 AtMostOne(S) == {{}} \cup {{x} : x \in S}
 UpTo(S, n) == {{}} \cup (IF n >= 1 THEN {{x} : x \in S} ELSE {}) \cup (IF n >= 2 THEN {{x, y} : x \in S, y \in S} ELSE {})
 Requestable == {x \in Slot : tree[x] \in {"dir", "file", "big", "at"}}   \* requested symlinks / special files: unspecified
+\* a requested path that does not exist (its Stat fails): only in the families that substitute AllowMissing (cfg: AllowMissing <- Yes)
+AllowMissing == FALSE
+Yes == TRUE
+MissingSlots == IF AllowMissing THEN {x \in Slot : tree[x] = "none" /\ ~IsGiSlot(x) /\ (Par[x] = 0 \/ IsDir(Par[x]))} ELSE {}
 PathChoices == IF MaxPaths = 0 THEN {<<>>}
-               ELSE {<<>>} \cup {<<s>> : s \in Requestable}
-                    \cup (IF MaxPaths >= 2 THEN {<<s, t>> : s \in Dirs, t \in Requestable} ELSE {})
+               ELSE {<<>>} \cup {<<s>> : s \in Requestable \cup MissingSlots}
+                    \cup (IF MaxPaths >= 2 THEN {<<s, t>> : s \in Dirs \cup MissingSlots, t \in Requestable} \cup {<<s, t>> : s \in Requestable, t \in MissingSlots} ELSE {})
 \* number of inodes a fault-free unlimited whole-tree walk of one root visits (used to centre the inode limits)
 ListSeq(d, perm) ==   \* children of d in the listing order encoded by perm (1..6); perm 0 uses ascending as the base
   LET S == Children(d)
@@ -304,15 +308,18 @@ StartWalk ==
           /\ LET s == cfg.paths[ri + 1] IN
              /\ EntryUpdate
              /\ IF Entry # "go"
-                THEN Abort /\ NoExtract /\ cancelled' = EntryCancelled /\ UNCHANGED <<stack, gis>>
+                THEN Abort /\ NoExtract /\ cancelled' = EntryCancelled /\ UNCHANGED <<stack, gis, travfault>>
+                ELSE IF ~Present(s)
+                     THEN \* Stat of the requested path fails: handleFile(p, nil, err) - fatal on request, otherwise the next path
+                          /\ travfault' = TRUE /\ NoExtract /\ UNCHANGED <<stack, gis, cancelled>>
+                          /\ IF cfg.fatal THEN Abort ELSE UNCHANGED <<phase, status>>
                 ELSE IF IsDir(s)
                      THEN \* the parents' .gitignore files (the root's included) apply to a requested directory
                           /\ LET pc == ParentChain(s)
                                  parents == IF cfg.useGit THEN [i \in 1..Len(pc) |-> [d |-> pc[i], atoms |-> IF Faulty("opengi", GiOf(pc[i]), 0) THEN {} ELSE GiAtoms(pc[i])]] ELSE <<>>
                              IN EnterDir(s, <<>>, parents)
-                          /\ NoExtract /\ UNCHANGED <<phase, status, cancelled>>
-                     ELSE /\ VisitFile(<<>>, s) /\ UNCHANGED <<stack, gis, phase, status>>
-             /\ UNCHANGED travfault
+                          /\ NoExtract /\ UNCHANGED <<phase, status, cancelled, travfault>>
+                     ELSE /\ VisitFile(<<>>, s) /\ UNCHANGED <<stack, gis, phase, status, travfault>>
   /\ UNCHANGED <<idx, tree, gic, cfg, req, out, root>>
 
 \* one handleFile call on the next listed entry of the directory on top of the stack
@@ -371,7 +378,8 @@ Spec == Init /\ [][Next]_vars
 -----------------------------------------------------------------------------
 (* ------------------------------ properties ------------------------------- *)
 Done == phase = "done"
-Clean == cfg.faults = {} /\ cfg.maxInodes = 0 /\ cfg.cancel.kind = "none"    \* fault-free, unlimited, uncancelled
+MissingRequested == \E i \in 1..Len(cfg.paths) : ~Present(cfg.paths[i])
+Clean == cfg.faults = {} /\ cfg.maxInodes = 0 /\ cfg.cancel.kind = "none" /\ ~(cfg.fatal /\ MissingRequested)    \* fault-free, unlimited, uncancelled, no fatal failure
 NoFailOutcome == \A x \in Ex \X Slot : out[x] \in {"ok", "empty"}
 
 \* C01: every required, non-excluded file is extracted exactly once per root / requested path that reaches it,
